@@ -120,13 +120,17 @@ def main(mod, argv):
             for e in C.known_findings(prop):
                 w = os.path.join(C.VERIF, e["witness"])
                 lines = [l.rstrip("\n") for l in open(w) if not l.startswith("# ")]
-                m = dict(e.get("meta", {})); m.update(finding_witness=e["id"], kind=e["kind"])
+                m = dict(getattr(mod, "replay_meta", lambda l: {})(lines)); m.update(e.get("meta", {}))
+                m.update(finding_witness=e["id"], kind=e["kind"])
                 cw.add(lines, m, name="finding-" + e["id"])
             for (lines, meta) in mod.generate(ctx):
                 cw.add(lines, meta)
                 fam = meta.get("family", "?")
                 dist[fam] = dist.get(fam, 0) + 1
-        v, m = run_cases(ctx, mod, res, cw, use_model=getattr(mod, "USES_MODEL", True) and model_ok)
+        if hasattr(mod, "custom_run"):
+            v, m = mod.custom_run(ctx, res, cw)
+        else:
+            v, m = run_cases(ctx, mod, res, cw, use_model=getattr(mod, "USES_MODEL", True) and model_ok)
         violations += v; mismatches += m
         if a.replay:
             impl = C.run_tool(os.path.join(ctx.hdir, "apiharness"), cw.paths)
@@ -204,6 +208,8 @@ def main(mod, argv):
             res.violation(rp, what, no_input=True)
     res.cov["correspondence_mismatches"] = len(mismatches)
     res.cov["broken"] = [b[:300] for b in broken]
+    C.log(f"{prop} {tier} seed={seed}: obligations {res.cov['discharged']}/{res.cov['obligations']}, cases {res.cov['evaluations']}, "
+          f"mismatches {len(mismatches)}, violations {len(res.violations)}, known {len(res.known)}, {time.time()-res.t0:.0f}s")
     rc = res.finish(getattr(mod, "LEVEL", "proof"))
     if not os.environ.get("VERIF_KEEP_CASES"):
         cw.cleanup()
